@@ -96,6 +96,8 @@ type LookupKey struct {
 func ToDbKey(typ uint8, b []byte, l *lang.Language) []byte {
 	k := []byte{typ}
 	if l != nil && l.Code != "" && typ&(DATATYPE_MENU|DATATYPE_TEMPLATE|DATATYPE_STATICLOAD) > 0 {
+		// the suffix goes on a copy: appending to the caller's slice would write into its spare capacity
+		b = append([]byte{}, b...)
 		b = append(b, []byte("_"+l.Code)...)
 		//s += "_" + l.Code
 	}
